@@ -269,6 +269,13 @@ func (s *Set) registerFlags(tmpl reflect.Value, ptyp reflect.Type) error {
 		// get the concrete value of the field from the template
 		fieldVal := transform.GetField(sf, tmpl)
 		shorthand, _ := sf.Tag.Lookup(common.DialsPFlagShortTag)
+		// the pflag package panics on such shorthands
+		if len(shorthand) > 1 {
+			return fmt.Errorf("invalid %s tag %q for field %s: a shorthand is one ASCII character", common.DialsPFlagShortTag, shorthand, sf.Name)
+		}
+		if shorthand != "" && s.Flags.ShorthandLookup(shorthand) != nil {
+			return fmt.Errorf("shorthand %q of field %s is already used by another flag", shorthand, sf.Name)
+		}
 		var f interface{}
 
 		switch {
